@@ -26,15 +26,22 @@ type planned struct {
 }
 
 type Config struct {
+	Work     bool // testnet rule set with a retarget behind it: per-block work differs (min-difficulty vs real)
 	Name     string
 	Testnet  bool
 	Compress bool
 	FastSave bool
 }
 
+// WorkConfig: branches with different per-block work (longer-but-lighter vs shorter-but-heavier).
+var WorkConfig = Config{Name: "testnet-work", Testnet: true, Work: true, FastSave: true}
+
 func Configs() []Config {
 	return []Config{{Name: "plain"}, {Name: "compressed-fastsave", Compress: true, FastSave: true}, {Name: "testnet-fastsave", Testnet: true, FastSave: true}}
 }
+
+// WorkMode: tree blocks randomly get a >20-minute gap (testnet minimum-difficulty block) or a normal gap.
+var WorkMode bool
 
 // Focus selects the mix of block kinds: "" = C06 mix, "C05" = mostly header/structure/commitment violators and mutated twins.
 var Focus string
@@ -50,7 +57,7 @@ func ChildFor(prop string, seed int64, tier, cfgName, stateFile string, trees in
 	run := vlib.StartChild(prop, seed, tier)
 	defer run.ExportState(stateFile)
 	var cfg Config
-	for _, c := range Configs() {
+	for _, c := range append(Configs(), WorkConfig) {
 		if c.Name == cfgName {
 			cfg = c
 		}
@@ -66,8 +73,35 @@ func ChildFor(prop string, seed int64, tier, cfgName, stateFile string, trees in
 	s := chainsim.NewSim(run, r, p, dir, chainsim.NodeOpts{CompressUTXO: cfg.Compress})
 	defer s.Close()
 	g := s.G
+	if cfg.Work {
+		// one full difficulty period of fast coinbase-only blocks: the retarget divides the target by 4;
+		// afterwards a block more than 20 minutes after its parent is a minimum-difficulty block
+		// (1/4 of the work of a real one)
+		g.KeepViews = false
+		s.CompareUTXOEvery = 211
+		for s.Ref.Tip.Height < refchain.Interval+2 {
+			g.NextGap = 1 + uint32(r.Intn(2))
+			tip := s.Ref.Tip
+			if rr, _, ok := s.Offer(g.Build(chainsim.BlockSpec{Parent: tip}), "work-base"); !ok || rr.Stage != "connected" {
+				return
+			}
+			g.DropView(tip.Hash)
+		}
+		if s.Ref.Tip.Bits == p.PowLimitBits {
+			run.Inconclusive("work config: retarget did not raise the difficulty")
+			return
+		}
+		g.KeepViews = true
+		s.CompareUTXOEvery = 1
+		WorkMode = true
+		for i := 0; i < 12; i++ {
+			if rr, _, ok := s.Offer(g.RandomBlock(s.Ref.Tip, 5), "work-base+tx"); !ok || rr.Stage != "connected" {
+				return
+			}
+		}
+	}
 	// base chain
-	for s.Ref.Tip.Height < 118 {
+	for !cfg.Work && s.Ref.Tip.Height < 118 {
 		mx := 0
 		if s.Ref.Tip.Height >= 101 {
 			mx = 5
@@ -87,6 +121,9 @@ func ChildFor(prop string, seed int64, tier, cfgName, stateFile string, trees in
 	}
 	if d := chainsim.DiffUTXO(s.Ref.Utxo, s.Ref.ReplayTip()); d != "" {
 		run.Inconclusive("reference self-check failed: %s", d)
+	}
+	if cfg.Work {
+		run.Count("work_mode_histories", 1)
 	}
 	run.Count("reorgs_observed", int64(s.Ref.Reorgs))
 	run.Count("failed_reorgs_observed", int64(s.Ref.FailedReorgs))
@@ -169,7 +206,15 @@ func OneTree(s *chainsim.Sim, run *vlib.Run, r *vlib.Rand, tno int) bool {
 		case x < 21:
 			kind = "check-invalid/pow"
 		}
+		if WorkMode {
+			if r.Bool() {
+				g.NextGap = 1201 + uint32(r.Intn(600))
+			} else {
+				g.NextGap = 300 + uint32(r.Intn(600))
+			}
+		}
 		b := buildKind(g, r, parNode, kind)
+		g.NextGap = 0
 		if b == nil {
 			kind = "valid"
 			b = g.RandomBlock(parNode, 4)
@@ -438,6 +483,9 @@ func Main() {
 			jobs = append(jobs, job{c, run.Seed*1000 + int64(i)})
 		}
 	}
+	for i := 0; i < run.N(2, 20); i++ {
+		jobs = append(jobs, job{WorkConfig, run.Seed*1000 + 300 + int64(i)})
+	}
 	vlib.Parallel(len(jobs), 8, func(i int) {
 		j := jobs[i]
 		sf := fmt.Sprintf("%s/state%d.json", tmp, i)
@@ -464,7 +512,7 @@ func Main() {
 		run.Inconclusive("no reorganisation was observed")
 	}
 	run.Assume("script validity of generated inputs is ground truth by construction; every other rule and the fork choice come from /verif/ref/refchain")
-	run.Assume("all blocks carry the same difficulty (regtest-like): work ties and longer-wins are exercised, heavier-but-shorter branches are not")
+	run.Assume("per-block work differs only in the testnet-work histories (minimum-difficulty blocks = 1/4 of a real block after one retarget); elsewhere all blocks carry the same difficulty")
 	run.Finish("each delivery = one block of a random block tree (valid / invalid at connect time / invalid at check time; forks from the tip and from below it; children withheld until parents are delivered, sometimes offered early; redeliveries; Idle/HurryUp in between); after each: tip + full UTXO dump vs reference; distinct_nontrivial = distinct tree shapes",
 		"deliveries", "tree_shapes", 10)
 }
